@@ -16,6 +16,7 @@ type ProgGen struct {
 	G      *ExprGen
 	GoOver map[string]interface{} // engine-side typed replacements for context entries
 	nLoop  int
+	nBlock int
 	nSet   int
 	// feature counters (non-triviality)
 	Ifs, Fors, Sets, Nested int
@@ -80,6 +81,28 @@ func NewProgGen(r *core.Rand) *ProgGen {
 			l[i] = int64(r.Range(-9, 99))
 		}
 		sc.Ctx[fmt.Sprintf("l%d", n)] = l
+		// some of the lists reach the engine as typed slices or behind a pointer: the same sequence either way
+		switch {
+		case n%4 == 3:
+			typed := make([]int, n)
+			for i := range l {
+				typed[i] = int(l[i].(int64))
+			}
+			if n%8 == 3 {
+				pg.GoOver[fmt.Sprintf("l%d", n)] = typed
+			} else {
+				// (only used as a for sequence: lp7)
+				sc.Ctx["lp7"] = l
+				pg.GoOver["lp7"] = &typed
+			}
+		case n == 6:
+			boxed := make([]interface{}, n)
+			for i := range l {
+				boxed[i] = int(l[i].(int64))
+			}
+			sc.Ctx["lp6"] = l
+			pg.GoOver["lp6"] = &boxed
+		}
 	}
 	sc.Ctx["sw"] = []mt.Val{"ab", "é", "日本", "q"}
 	sc.Ctx["str1"] = "héy"
@@ -175,6 +198,9 @@ func (pg *ProgGen) seq() (mt.Expr, string) {
 			return mt.Filt{E: base, Name: "slice", Args: []mt.Expr{mt.I(0), x}}, "int"
 		}
 		return mt.Filt{E: base, Name: "slice", Args: []mt.Expr{x}}, "int"
+	}
+	if r.P(1, 12) {
+		return mt.V([]string{"lp6", "lp7"}[r.Intn(2)]), "int"
 	}
 	switch r.Intn(9) {
 	case 0, 1, 2:
@@ -377,6 +403,11 @@ func (pg *ProgGen) stmt(depth int) []mt.Stmt {
 		}
 		return out
 	default:
+		if depth > 0 && r.P(1, 2) {
+			// a block is rendered where it stands; what its body sets stays set after endblock
+			pg.nBlock++
+			return []mt.Stmt{mt.Block{Name: fmt.Sprintf("pb%d", pg.nBlock), Body: pg.Body(depth-1, 3)}}
+		}
 		return []mt.Stmt{mt.P(pg.G.Str(1))}
 	}
 }
